@@ -1616,10 +1616,13 @@ def submesh(
 
     [setattr(r, "_source", deepcopy(mesh.source)) for r in result]
 
-    if only_watertight or repair:
+    if repair:
         # fill_holes will attempt a repair and returns the
         # watertight status at the end of the repair attempt
         watertight = [i.fill_holes() and len(i.faces) >= 4 for i in result]
+    elif only_watertight:
+        # the caller switched the repair off: only check
+        watertight = [i.is_watertight and len(i.faces) >= 4 for i in result]
     if only_watertight:
         # remove unrepairable meshes
         return [i for i, w in zip(result, watertight) if w]
